@@ -26,7 +26,9 @@ def cases(draw, tier):
         start = None
     return {'nl': nl, 'route': draw(gen.routes(nl)), 'start': start,
             'mode': draw(st.sampled_from(['DFS', 'BFS'])), 'inverse': draw(st.booleans()),
-            'hooks': draw(st.integers(0, 31)), 'topsort_unvisited': draw(st.booleans())}
+            'hooks': draw(st.integers(0, 31)), 'topsort_unvisited': draw(st.booleans()),
+            # what the hooks read from the state mapping they are handed: own entry only, neighbours, or every gate
+            'peek': draw(st.sampled_from(['none', 'neigh', 'neigh', 'all']))}
 
 
 def check_traverse(case):
@@ -69,14 +71,28 @@ def check_traverse(case):
     extra: dict = {}
     hooks = case['hooks']
     kw = {}
+    peek_mode = case.get('peek', 'none')
+
+    def rec(kind):
+        def hook(g, s):
+            # reading the handed mapping (also for gates the traversal has not reached) is what hooks are for
+            if peek_mode == 'neigh':
+                for x in list(g.operands) + list(c.get_gate_users(g.label)):
+                    s[x]
+            elif peek_mode == 'all':
+                for x in labs:
+                    s[x]
+            events.append((kind, g.label, s[g.label]))
+        return hook
+
     if hooks & 1:
-        kw['on_enter_hook'] = lambda g, s: events.append(('enter', g.label, s[g.label]))
+        kw['on_enter_hook'] = rec('enter')
     if hooks & 2:
-        kw['on_discover_hook'] = lambda g, s: events.append(('discover', g.label, s[g.label]))
+        kw['on_discover_hook'] = rec('discover')
     if hooks & 4 and case['mode'] == 'DFS':
-        kw['on_exit_hook'] = lambda g, s: events.append(('exit', g.label, s[g.label]))
+        kw['on_exit_hook'] = rec('exit')
     if hooks & 8:
-        kw['unvisited_hook'] = lambda g, s: events.append(('unvisited', g.label, s[g.label]))
+        kw['unvisited_hook'] = rec('unvisited')
     if hooks & 16:
         kw['on_traversal_end_hook'] = lambda s: events.append(('end', dict(s)))
     fn = c.dfs if case['mode'] == 'DFS' else c.bfs
@@ -171,6 +187,8 @@ def check_traverse(case):
     if reach and len(reach) < len(labs):
         cls.add('strict_subset')
     cls.add(f'hooks={bin(hooks).count("1")}')
+    if hooks & 15:
+        cls.add('peek:' + peek_mode)
     return {'nt': shared and 0 < len(reach) < len(labs), 'cls': cls, 'count': extra,
             'sample': {'bench': build.bench_text(nl), 'mode': case['mode'], 'inverse': inverse,
                        'start': start, 'yielded': yielded}}
@@ -248,7 +266,7 @@ def check_cycles(case):
 SPEC = {
     'id': 'C20',
     'rule': ('Hypothesis DAG netlists (sharing, duplicated operands, disconnected parts, dead gates, <=30 gates) x '
-             'start set (default / empty / label list with repeats) x DFS|BFS x direction x all 32 hook subsets x '
+             'start set (default / empty / label list with repeats) x DFS|BFS x direction x all 32 hook subsets (hooks reading their own / neighbouring / all entries of the state mapping) x '
              'topsort_unvisited; oracle: predicates over the recorded event trace against own reachability '
              '(yield set = reachable each once, enter=yield order, every enter before its exit, exit set, post-order over every edge, '
              'unvisited complement and its topological order; nesting / discover / end-hook protocol are only counted) plus top_sort order in both '
